@@ -7,6 +7,8 @@
 //  ops     : every operator / functional class of common_operators.hpp / common_functionals.hpp -> ops.hpp
 //  trace   : TraceAssembler facet selection (add_facet / compile / clear) -> trace_quad.cpp
 //  bg/bgsd : Burgers operator, classic assembler and domain-assembler jobs (blocked and scalar) -> burgers.hpp
+//  ferec   : only what the real cell loop hands to the scatter object (first call of the process)
+//  hist(j) : five requests [warm-up, real, warm-up, real, real] in ONE process, classic (hist) or job route (histj)
 //  feasm   : the classic assembler once more, printing only the matrix (compared with the model's fold)
 #include "burgers.hpp"
 #include "ops.hpp"
@@ -262,10 +264,10 @@ static void handle(const verif::Tokens& t, std::ostream& o)
     }
     show_matrix(o, m);
   }
-  else if(op == "fe" || op == "feasm")
+  else if(op == "fe" || op == "feasm" || op == "ferec" || op == "hist" || op == "histj")
   {
     std::string shape = c.str();
-    bool full = (op == "fe");
+    int full = (op == "fe") ? 1 : (op == "feasm") ? 0 : (op == "ferec") ? 2 : (op == "hist") ? 3 : 5;
     if(shape == "line") fe_line(c, o, full);
     else if(shape == "quad") fe_quad(c, o, full);
     else if(shape == "tria") fe_tria(c, o, full);
